@@ -144,7 +144,10 @@ def run_bools(tag, exprs, chunk=40):
         starts.append(s)
     if not bodies:
         return [], None
-    res = vlib.run_cases(tag, IMPORTS, bodies)
+    try:
+        res = vlib.run_cases(tag, IMPORTS, bodies)
+    except Exception as e:              # the Coq side could not run: reported as an error of THIS obligation only
+        return [], 'run_cases raised ' + repr(e)[:300]
     bad = []
     for s, r in zip(starts, res):
         if r[0] == 'error':
@@ -226,10 +229,68 @@ def classify(t):
     return out
 
 
+def update_oracle(cases):
+    """an uncoated surface matrix (P = identity) is orthogonal and carries k0 to k1"""
+    out, seen = [], set()
+    for c in cases:
+        if c.get('orth_err') is not None and not c['orth_err'] <= 1e-7:
+            cr = [c['k0'][1] * c['k1'][2] - c['k0'][2] * c['k1'][1], c['k0'][2] * c['k1'][0] - c['k0'][0] * c['k1'][2],
+                  c['k0'][0] * c['k1'][1] - c['k0'][1] * c['k1'][0]]
+            mag = math.sqrt(sum(x * x for x in cr))
+            cause = 'near-parallel' if 0 < mag < ILL else 'unknown'
+            if (cause, c['kind']) not in seen:
+                seen.add((cause, c['kind']))
+                out.append({'call': 'PolarizedRays.update', 'cause': cause, 'clause': 'uncoated-intensity',
+                            'kind': c['kind'], 'k0': c['k0'], 'k1': c['k1'], 'observed': c['orth_err'],
+                            'expected': 0.0, 'violates_property': True})
+    return out
+
+
+def field_oracle(cases):
+    """update_intensity on an arbitrary COMPLEX accumulated matrix: |P E|^2 of the stated state, and
+    unpolarized = i0 * mean over any orthogonal pair (H/V, RCP/LCP, a random elliptical pair)"""
+    out, seen = [], set()
+    cur = None
+
+    def add(w):
+        key = (w['clause'], w.get('pair'))
+        if key not in seen:
+            seen.add(key)
+            out.append(dict(w, k=cur['k'], i0=cur['i0'], P=cur['P']))   # the inputs last: the head says what failed
+    for c in cases:
+        cur = c
+        if 'pairs' not in c:
+            continue
+        base = {'call': 'PolarizedRays.update_intensity', 'cause': 'unknown', 'violates_property': True}
+        if not abs(c['ipol'] - c['ref_pol']) <= INT_TOL * (1 + abs(c['ref_pol'])):
+            add(dict(base, clause='stated-state-intensity', state=c['state'], observed=c['ipol'], expected=c['ref_pol']))
+        if not abs(c['iunpol'] - c['ref_unpol']) <= INT_TOL * (1 + abs(c['ref_unpol'])):
+            add(dict(base, clause='stated-state-intensity', state='unpolarized', pair='unpolarized', observed=c['iunpol'],
+                     expected=c['ref_unpol']))
+        for lab, (ia, ib) in c['pairs'].items():
+            mean = c['i0'] * (ia + ib) / 2
+            if not abs(c['iunpol'] - mean) <= INT_TOL * (1 + abs(mean)):
+                add(dict(base, clause='unpolarized-mean', pair=lab, observed=c['iunpol'], expected=mean))
+    return out
+
+
+def trace_witnesses(traces):
+    wit, seen = [], set()
+    for t in traces:
+        if 'skipped' in t:
+            continue
+        for w in classify(t):
+            key = (w['cause'], w['clause'])
+            if key not in seen:
+                seen.add(key)
+                wit.append(w)
+    return wit
+
+
 def system_checks(ctx):
     nu = ctx.n(24, 160)
     data = impl({'seed': ctx.seed, 'what': ['update', 'field', 'traces', 'oracles'], 'n_unit': nu,
-                 'n_lens': ctx.n(14, 120), 'n_mirror': ctx.n(8, 48), 'n_oracle': ctx.n(120, 1500)})
+                 'n_lens': ctx.n(14, 120), 'n_mirror': ctx.n(8, 48), 'n_element': ctx.n(6, 36), 'n_oracle': ctx.n(120, 1500)})
     tol = fh(1e-11)
 
     # ---- PolarizedRays.update against pol_update ----
@@ -248,20 +309,11 @@ def system_checks(ctx):
         c = data['update'][i]
         res['disagreements'].append({'case': {k: c[k] for k in ('kind', 'k0', 'k1')}, 'violates_property': False,
                                      'note': 'model and implementation disagree on the accumulated matrix'})
-    # the property itself on the same calls: an uncoated surface matrix is orthogonal and carries k0 to k1
-    seen = set()
-    for c in data['update']:
-        if c.get('orth_err') is not None and not c['orth_err'] <= 1e-7:
-            cr = [c['k0'][1] * c['k1'][2] - c['k0'][2] * c['k1'][1], c['k0'][2] * c['k1'][0] - c['k0'][0] * c['k1'][2],
-                  c['k0'][0] * c['k1'][1] - c['k0'][1] * c['k1'][0]]
-            mag = math.sqrt(sum(x * x for x in cr))
-            cause = 'near-parallel' if 0 < mag < ILL else 'unknown'
-            if (cause, c['kind']) not in seen:
-                seen.add((cause, c['kind']))
-                res['disagreements'].append({'call': 'PolarizedRays.update', 'cause': cause, 'clause': 'uncoated-intensity',
-                                             'kind': c['kind'], 'k0': c['k0'], 'k1': c['k1'], 'observed': c['orth_err'],
-                                             'expected': 0.0, 'violates_property': True})
     yield res
+    # the property itself on the same calls (implementation only; reported whether or not the Coq side ran)
+    yield {'name': 'oracle: uncoated PolarizedRays.update is an isometry carrying k0 to k1', 'n': len(data['update']),
+           'nontrivial': sum(1 for c in data['update'] if c.get('orth_err') is not None), 'histogram': {}, 'samples': [],
+           'disagreements': update_oracle(data['update'])}
 
     # ---- launch field / intensities / PolarizationState ----
     ex = []
@@ -299,6 +351,9 @@ def system_checks(ctx):
         res['disagreements'].append({'case': {'kind': what[0], **{k: v for k, v in what[1].items() if k != 'P'}},
                                      'violates_property': False})
     yield res
+    yield {'name': 'oracle: update_intensity on complex accumulated matrices (stated state, unpolarized = mean of orthogonal pairs)',
+           'n': 5 * nf, 'nontrivial': nf, 'histogram': {'complex P': nf}, 'samples': [],
+           'disagreements': field_oracle(data['field'])}
 
     # ---- recorded traces: model on the recorded calls + the property oracle on the implementation ----
     traces = [t for t in data['traces'] if 'skipped' not in t]
@@ -343,13 +398,12 @@ def system_checks(ctx):
         t = traces[idx[i]]
         res['disagreements'].append({'case': {'lens': t['lens'], 'ray': t['ray'], 'spec': t['spec']}, 'violates_property': False,
                                      'note': 'model and implementation disagree on the accumulated matrix / intensities'})
-    seen = set()
-    for w in wit:                       # one witness per (cause, clause)
-        key = (w['cause'], w['clause'])
-        if key not in seen:
-            seen.add(key)
-            res['disagreements'].append(w)
     yield res
+    cplx = sum(1 for t in traces if t.get('complex_P', 0) > 1e-6)
+    yield {'name': 'oracle: recorded traces against the independent reference (transversality, stated-state and Fresnel energy, '
+                   'unpolarized = mean of orthogonal pairs)', 'n': len(traces), 'nontrivial': sum(1 for t in traces if t['finite']),
+           'histogram': dict({k: v for k, v in hist.items() if k.startswith('layout:')}, **{'complex accumulated matrix': cplx}),
+           'samples': [], 'disagreements': trace_witnesses(traces)}
 
     # ---- the property as an oracle on the Jones classes ----
     o = data['oracles']
@@ -373,8 +427,8 @@ def system_checks(ctx):
 # ---------------------------------------------------------------------------------------------
 def search(ctx, broken, disagreements):
     """the property stated directly on the implementation: Jones-class oracles + recorded traces, larger sweep"""
-    data = impl({'seed': ctx.seed + 77, 'what': ['traces', 'oracles'], 'n_unit': 0,
-                 'n_lens': ctx.n(30, 300), 'n_mirror': ctx.n(16, 96), 'n_oracle': ctx.n(400, 4000)})
+    data = impl({'seed': ctx.seed + 77, 'what': ['update', 'field', 'traces', 'oracles'], 'n_unit': ctx.n(48, 320),
+                 'n_lens': ctx.n(30, 300), 'n_mirror': ctx.n(16, 96), 'n_element': ctx.n(12, 72), 'n_oracle': ctx.n(400, 4000)})
     wit = []
     seen = set()
     for f in data['oracles']['fails']:
@@ -382,14 +436,13 @@ def search(ctx, broken, disagreements):
         if key not in seen:
             seen.add(key)
             wit.append(dict(f, violates_property=True))
-    for t in data['traces']:
-        if 'skipped' in t:
-            continue
-        for w in classify(t):
-            key = (w['cause'], w['clause'])
-            if key not in seen:
-                seen.add(key)
-                wit.append(w)
+    wit += update_oracle(data.get('update', [])) + field_oracle(data.get('field', [])) + trace_witnesses(data['traces'])
+    # witnesses that no listed open finding explains come first
+    try:
+        known = vlib.load_known_findings(PROP)
+    except Exception:
+        known = []
+    wit.sort(key=lambda w: any(matches_finding(w, f) for f in known))
     return wit or None
 
 
